@@ -12,7 +12,7 @@ P = {
    "DESIGN.md §5 C01"),
  "C04": (True, "progen+refliquid", "model_checking",
    "exhaustive enumeration of all programs up to a node bound over a reused name alphabet; each execution compared with an independent reference interpreter (model) and the caller's data deep-compared",
-   "All programs with <= N statement nodes (nesting <= 4) over assign/copy/increment/decrement/output/include/capture/for/if on 2-3 reused names, instrumented with non-raising probes after every statement, on 4 data objects: output or error status must equal the reference interpreter's, and the caller's data must be unchanged. Model checking of the program space against a model; the conformance step is the per-program comparison itself.",
+   "All programs with <= N statement nodes (nesting <= 4) over assign/copy/increment/decrement/output/include/fixed-text capture leaves and capture/for/tablerow/if/unless/case/ifchanged compounds on 2-3 reused names, instrumented with non-raising probes after every statement, on 4 data objects: output or error status must equal the reference interpreter's, and the caller's data must be unchanged. Model checking of the program space against a model; the conformance step is the per-program comparison itself.",
    "reference interpreter refl.rs is the model (kept small; unspecified cells are skipped and counted); values truthy so probes are exact; node bound N<=3 quick / N<=4 thorough",
    "DESIGN.md §5 C04"),
  "C05": (True, "enum+refliquid", "exploration",
@@ -48,7 +48,7 @@ P = {
  "C10": (True, "faultsink", "fault_enumeration",
    "write-fault enumeration: for every generated program and every write call k of its fault-free run the sink fails at k, accepts a short count then fails, or reports EINTR once",
    "Every (program, data, fault position, fault kind) is executed: a failing sink must give Err, no write after the failing one, accepted bytes an exact prefix of the fault-free output; EINTR must be retried transparently; the fault-free stream must equal the buffered render.",
-   "std write_all semantics; programs <= 3 (quick) / 4 (thorough) nodes over all writing constructs",
+   "std write_all semantics; programs <= 3 (quick) / 4 (thorough) nodes over all writing constructs; plus 12 constructs over long non-ASCII pieces at every alignment with a fault after every byte offset of every write",
    "DESIGN.md §5 C10"),
  "C19": (True, "progen + store exploration", "model_checking",
    "exhaustive scenario enumeration under the three compilation policies (differential), differential removal/replacement of the broken partial, exhaustive exploration of PartialStore API call sequences on the three stores, and every partial source text of <= k lexical items under the three policies",
@@ -96,7 +96,7 @@ P = {
    "date-looking strings excluded from the serde -> Liquid direction (documented purpose of the untagged scalar); real dates cross Serialize as strings and are compared through from_value only; a conversion may refuse (enums needing deserialize_enum, 128-bit integers) but must not alter",
    "DESIGN.md §5 C12"),
  "C18": (True, "stackmc", "model_checking",
-   "explicit-state model checking (stateright BFS and DFS) of a stack-of-maps model over 28 actions; every transition re-executes the whole history on the real RuntimeBuilder/StackFrame/SandboxedStackFrame/GlobalFrame types and compares all get/try_get/roots/get_index observations with the model",
+   "explicit-state model checking (stateright BFS and DFS) of a stack-of-maps model over 28 actions; every transition re-executes the whole history on the real RuntimeBuilder/StackFrame/SandboxedStackFrame/GlobalFrame types and compares all get/try_get/roots/get_index observations with the model; every history is executed a second time with the same observations on every intermediate stack (lookups must be reads)",
    "All reachable abstract states within the bounds (<= 3 layers / 5 operations quick, <= 4 layers / 6 operations thorough) are visited; in each the real top-of-stack runtime must answer every path of length 1..2, the root listing and the counters exactly as the model predicts, the failing and optional lookup must agree, roots() must be exactly the resolving names, and every live layer must see the same counters.",
    "state identity = abstract state (sound because every transition proves the real observations are a function of it); guarded by an un-deduplicated enumeration of all operation sequences to depth 3-4 and by BFS/DFS unique-state agreement",
    "DESIGN.md §5 C18"),
